@@ -83,8 +83,24 @@ def gen_ops(rng, spec, nops, save_modes, p_save=0.12, structures=("package",)):
                     ops.append(["gfield", ln, gn, "note", rng.choice([None, "x", "changed"])])
                 elif k < 0.9:
                     ops.append(["gfield", ln, gn, "libkey", ["com.a.k1", rng.choice([None, 7, "v", [1, 2]])]])
-                else:
+                elif k < 0.94:
                     ops.append(["gfield", ln, gn, "move", [rng.randint(-5, 5), rng.randint(-5, 5)]])
+                else:
+                    # structure edits that may be the FIRST thing to touch a glyph read from disk (no identifiers: they
+                    # cannot clash with what the glyph holds)
+                    kind = rng.choice(["inscontour", "inscontour", "addanchor", "addguide", "clearanchors", "clearcomps"])
+                    if kind == "inscontour":
+                        x = rng.randint(0, 300)
+                        pts = [[x, 0, "line", False, None, None], [x + 40, 0, "line", False, None, None],
+                               [x + 20, 30 + rng.randint(0, 9), "line", False, None, None]]
+                        v = [rng.choice(["first", "last"]), {"id": None, "points": pts}]
+                    elif kind == "addanchor":
+                        v = [rng.randint(0, 300), rng.randint(0, 300), rng.choice(["top", "new"]), None, None]
+                    elif kind == "addguide":
+                        v = [rng.randint(0, 300), None, None, "gnew", None, None]
+                    else:
+                        v = None
+                    ops.append(["gfield", ln, gn, kind, v])
         elif r < 0.68:
             free = [n for n in fg.LAYER_NAMES if n not in layers()]
             if free:
@@ -236,6 +252,19 @@ class Shadow(object):
                         gl["lib"].pop(v[0], None)
                     else:
                         gl["lib"][v[0]] = copy.deepcopy(v[1])
+                elif f == "inscontour":
+                    if v[0] == "first":
+                        gl["contours"].insert(0, copy.deepcopy(v[1]))
+                    else:
+                        gl["contours"].append(copy.deepcopy(v[1]))
+                elif f == "addanchor":
+                    gl["anchors"].append(copy.deepcopy(v))
+                elif f == "addguide":
+                    gl["guidelines"].append(copy.deepcopy(v))
+                elif f == "clearanchors":
+                    gl["anchors"] = []
+                elif f == "clearcomps":
+                    gl["components"] = []
                 elif f == "move":
                     dx, dy = v
                     for c in gl["contours"]:
@@ -500,6 +529,24 @@ class Impl(object):
                             g.lib[v[0]] = copy.deepcopy(v[1])
                     elif f == "move":
                         g.move(tuple(v))
+                    elif f == "inscontour":
+                        # a free-standing contour; nothing of the glyph is looked at before the insertion
+                        import defcon
+                        c = defcon.Contour()
+                        for x, y, t, sm, nm, pid in v[1]["points"]:
+                            c.addPoint((x, y), t, sm, nm, identifier=pid)
+                        if v[0] == "first":
+                            g.insertContour(0, c)
+                        else:
+                            g.appendContour(c)
+                    elif f == "addanchor":
+                        g.appendAnchor(dict(x=v[0], y=v[1], name=v[2], color=v[3], identifier=v[4]))
+                    elif f == "addguide":
+                        g.appendGuideline(fg._guideline_dict(v))
+                    elif f == "clearanchors":
+                        g.clearAnchors()
+                    elif f == "clearcomps":
+                        g.clearComponents()
             elif k == "lnew":
                 self.keep.append(font.newLayer(op[1]))
             elif k == "ldel":
@@ -703,6 +750,28 @@ def check_saved(impl, shadow, prop, step, op, deep, second_save):
     return viol
 
 
+def check_clean_is_persisted(impl, shadow, prop, step, op):
+    """`not dirty` means persisted: called when the font's flag went from set to clear outside a save (never on the
+    unchanged code); the UFO at the font's path must then hold what memory holds"""
+    font = impl.font
+    if font.path is None or not os.path.exists(font.path):
+        return [dict(clause="%s/not-dirty-without-ufo" % prop, signature="%s/not-dirty-without-ufo/%s" % (prop, op[0] if op else "end"),
+                     step=step, op=op)]
+    try:
+        got = strip_order(fg.read_ufo(font.path))
+    except Exception as e:
+        return [dict(clause="%s/not-dirty-but-unreadable" % prop, signature="%s/not-dirty-but-unreadable/%s" % (prop, op[0] if op else "end"),
+                     step=step, op=op, error="%s: %s" % (type(e).__name__, e))]
+    got.pop("formatVersion", None)
+    got.pop("structure", None)
+    r = fg.diff_dumps(strip_order(fg.expected_dump(shadow.s)), got)
+    if r:
+        return [dict(clause="%s/not-dirty-but-not-persisted" % prop,
+                     signature="%s/not-dirty-but-not-persisted/after-%s" % (prop, op[0] if op else "reading-everything"),
+                     step=step, op=op, diff=r)]
+    return []
+
+
 def run_case(case, prop):
     tmpd = tempfile.mkdtemp(prefix="vpers_")
     try:
@@ -739,11 +808,13 @@ def run_case(case, prop):
                 carry = known_only
         carry = locals().get("carry", [])
         for i, op in enumerate(case["ops"]):
+            was_dirty = bool(impl.font.dirty)
             try:
                 status, extra = impl.do(op)
             except Exception as e:
                 status, extra = "err:" + type(e).__name__, str(e)[:300]
             stats["op." + op[0]] = stats.get("op." + op[0], 0) + 1
+            flag_dropped = op[0] != "save" and was_dirty and not impl.font.dirty
             if op[0] != "save":
                 ok_expected = shadow.do(op)
                 if op[0] in PART_OF_OP and ok_expected:
@@ -766,9 +837,15 @@ def run_case(case, prop):
             if (status == "ok") != bool(ok_expected):
                 viol.append(dict(clause="%s/op-outcome" % prop, signature="%s/op-outcome/%s" % (prop, op[0]), step=i, op=op,
                                  expected_ok=bool(ok_expected), observed=status, detail=extra))
+            elif flag_dropped:
+                stats["flag_dropped_outside_save"] = stats.get("flag_dropped_outside_save", 0) + 1
+                viol.extend(check_clean_is_persisted(impl, shadow, prop, i, op))
         if not viol:
             # memory must equal the content too (reads every lazily loaded part now)
+            was_dirty = bool(impl.font.dirty)
             got = strip_order(fg.dump_font(impl.font))
+            if was_dirty and not impl.font.dirty:
+                viol.extend(check_clean_is_persisted(impl, shadow, prop, len(case["ops"]), None))
             r = fg.diff_dumps(strip_order(fg.expected_dump(shadow.s)), got)
             if r:
                 viol.append(dict(clause="%s/memory-differs" % prop, signature="%s/memory-differs/%s" % (prop, r.split(":")[0].strip("/").split("/")[0].split("[")[0]),
